@@ -27,7 +27,7 @@ func init() {
 		QuickTimeoutS: 400, ThoroughTimeoutS: 2400, GoMaxProcs: []int{4, 2, 16, 1}, Parallel: 8,
 		Level: "fault_enumeration", DesignRef: "DESIGN.md section 4, C03",
 		Technique: "runtime monitoring: gated (blocking) recording nodes, cancellation injected at every protocol hook, goroutine-dump inspector for leaks and blocked-state witnesses, watchdog with three-valued verdict",
-		LevelText: "Fault enumeration by execution: configurations of <=3 pipelines x <=3 inner nodes (+formatter, sink) with outcomes pass/replace/drop/error/block; for each, Send is run never-cancelled, cancelled before the call and cancelled inside each hook hit of the dispatch protocol (all hits in the thorough tier, a seeded sample of 6 in the quick tier), with blocking nodes held at harness gates. Decided at the boundary: Send must return while the gates are still closed once cancelled, must not return before all pipelines finished when never cancelled, and after the gates open no goroutine with graph.process/doProcess frames may remain (two goroutine dumps). Panics end the child process and are reported by the driver.",
+		LevelText: "Fault enumeration by execution: configurations of <=3 pipelines x <=3 inner nodes (+formatter, sink) with outcomes pass/replace/drop/error/block; for each, Send is run never-cancelled, cancelled before the call and cancelled inside each hook hit of the dispatch protocol (all hits in the thorough tier, a seeded sample of 10 in the quick tier), with blocking nodes held at harness gates. Decided at the boundary: Send must return while the gates are still closed once cancelled, must not return before all pipelines finished when never cancelled, and after the gates open no goroutine with graph.process/doProcess frames may remain (two goroutine dumps). Panics end the child process and are reported by the driver.",
 		LevelNote: "Trusted: goroutine dump parsing, gates. 'Promptly' is decided by a gate (Send must return before the harness opens it), never by a tuned duration; watchdog 10 s => inconclusive unless the goroutine is provably parked in the library.",
 		Rule:      "seeded configurations (1..3 pipelines, 0..2 filters each incl. a shared filter, formatter, sink; ~25% of nodes block at a gate) x cancel points {before call, never, k-th hook hit}; seeded yields at hooks; non-trivial = configuration with a blocking node or a cancel point; distinct = (configuration, hook at which the cancel landed).",
 	})
